@@ -341,6 +341,32 @@ def sequence_probes(ctx, prog, q):
             seqs.append([('+', um, one), ('+', uh, one), ('+',) + prod])
             seqs.append([('+', um, one), ('+', uh, one), ('-',) + prod])
             seqs.append([('-', um, one), ('-', uh, one), ('-',) + prod])
+    # dense x dense products: both significands all ones / with the last fraction bit set, at every pair of scales around one (and a coarser
+    # grid beyond): the product then fills the whole 2W-bit window, so every bit of the alignment and of the spill into the next limb matters
+    def _dense(sc_, kind_):
+        k_ = sc_ >> pty.es
+        reg_ = (k_ + 2) if k_ >= 0 else (-k_ + 1)
+        fbs_ = max(0, pty.bits - 1 - reg_ - pty.es)
+        if fbs_ == 0:
+            return None
+        fr_ = ((1 << fbs_) - 1) if kind_ == 'ones' else 1
+        v_ = Fraction(2) ** sc_ * (1 + Fraction(fr_, 1 << fbs_))
+        u_ = p.encode(v_)
+        return u_ if p.decode(u_) == v_ else None
+    maxs_ = (pty.bits - 2) << pty.es
+    near = list(range(-9, 10)) if pty.bits > 8 else list(range(-5, 6))
+    far = [s_ for s_ in range(-maxs_ + 1, maxs_ - 1, 8 if pty.bits > 16 else 4) if s_ not in near]
+    grid = [(sa_, sb_) for sa_ in near for sb_ in near] + [(sa_, sb_) for sa_ in far for sb_ in far[::3]]
+    if ctx.tier == 'quick':
+        grid = [(sa_, sb_) for sa_ in near for sb_ in near[::2]] + [(sa_, sb_) for sa_ in far[::2] for sb_ in far[::4]]
+    for sa_, sb_ in grid:
+        for ka_, kb_ in (('ones', 'ones'), ('lsb', 'lsb'), ('ones', 'lsb')):
+            ua_, ub_ = _dense(sa_, ka_), _dense(sb_, kb_)
+            if ua_ is None or ub_ is None:
+                continue
+            seqs.append([('+', ua_, ub_)])
+            if (sa_ + sb_) % 3 == 0:
+                seqs.append([('-', ua_, ub_)])
     # near maxpos / minpos
     big = p.encode(Fraction(2) ** ((pty.bits - 2) * (1 << pty.es) // 2 - 1))
     seqs.append([('+', big, big), ('+', 1, one)])
